@@ -308,6 +308,55 @@ def h_adaptive_cv(ctx, il, n0, lm, bound, passes=3):
     ctx.prove("C05.raw_price_is_sum_of_level_means_when_controls_are_on", EQ(stats.price(no_control_variates=True), total), info=info, replay=rp)
 
 
+def replay_controls_representation(sc):
+    """real multilevel engine, coupling process simulated in log-spot, one control written on the log-spot: after the engine's
+    initialisation the control reads the representation of the process (log S_T itself, not its logarithm)"""
+    import rpylib.product.payoff as PAY
+    import rpylib.product.underlying as UND
+    from rpylib.process.process import ProcessRepresentation
+    from .mlmc_common import PROD
+
+    control = PROD.Product(payoff_underlying=UND.LogSpot(), payoff=PAY.Forward(strike=0.0), maturity=1.0)
+    cv = PROD.ControlVariates(products=[control], prices=[0.1])
+    ctxc = ConcreteCtx({}, {})
+    reg = Registry(ctxc)
+    cc = CR.ConvergenceCriteria(criteria=lambda a, ml, r: True, compute_mc_paths=lambda r, vl, cl: np.zeros(len(vl), dtype=int))
+    cfg = CFG.ConfigurationMultiLevel(convergence_rates=CFG.ConvergenceRates(alpha=1.0, beta=1.0, gamma=1.0), convergence_criteria=cc,
+                                      initial_level=0, maximum_level=0, initial_mc_paths=1, nb_of_processes=1, control_variates=cv)
+    cfg.initialisation_seed = lambda multiprocessing=False: None
+    coupling = ScriptedCoupling(reg, 0.9)
+    coupling.fine_process.process_representation = ProcessRepresentation.LOG
+    eng = ME.Engine(cfg, coupling)
+    eng.initialisation(ScriptedProduct(2.0))
+    path = np.array([0.0, 0.3])
+    got = float(control.payoff_underlying.value(None, path, None))
+    return abs(got - 0.3) > 1e-12, (f"multilevel engine on a log-simulated process: after Engine.initialisation the LogSpot control reads {got!r} on the log-path {path.tolist()} "
+                                    f"(the log-spot is 0.3)")
+
+
+def h_controls_representation(ctx):
+    """multilevel engine: the control products are valued in the representation of the simulated process, like the priced product"""
+    import rpylib.product.payoff as PAY
+    import rpylib.product.underlying as UND
+    from rpylib.process.process import ProcessRepresentation
+    from .mlmc_common import PROD
+
+    control = PROD.Product(payoff_underlying=UND.LogSpot(), payoff=PAY.Forward(strike=0.0), maturity=1.0)
+    cv = PROD.ControlVariates(products=[control], prices=[ctx.real("price_x")])
+    eng, prod, reg, crit, df, notional = make_engine(ctx, 0, 1, 0, 1, control_variates=cv)
+    eng.coupling_process.fine_process.process_representation = ProcessRepresentation.LOG
+    eng.initialisation(prod)
+    x = ctx.real("log_spot")
+    path = np.empty(2, dtype=object)
+    path[0], path[1] = 0.0, x
+    ctx.assume(x > 0)  # so that a (wrong) logarithm of the log-spot is defined
+    got = control.payoff_underlying.value(None, path, None)
+    if isinstance(got, np.ndarray):
+        got = got.reshape(-1)[0]  # path[..., -1] of a one-dimensional path is a 0-d array
+    ctx.prove("C05.controls_are_valued_in_the_representation_of_the_process", EQ(got, x), info={"control": "LogSpot forward", "process": "LOG"},
+              replay=(replay_controls_representation, lambda m: {}))
+
+
 def replay_fixed_crash(sc):
     try:
         ok, detail = replay_run(sc)
@@ -417,6 +466,7 @@ def harnesses(tier):
         hs.append(Harness(f"adaptive.L{il}.N{n0}.M{lm}.B{b}.P{ps}", h_adaptive, {"il": il, "n0": n0, "lm": lm, "bound": b, "passes": ps}, max_paths=120000 if not q else 6000, batch=10))
     for il, n0, lm, b, ps in ([(0, 1, 1, 2, 3)] if q else [(0, 1, 1, 2, 4), (1, 1, 1, 2, 4), (0, 2, 1, 2, 3)]):
         hs.append(Harness(f"adaptive.pool.L{il}.N{n0}.M{lm}.B{b}.P{ps}", h_adaptive, {"il": il, "n0": n0, "lm": lm, "bound": b, "passes": ps, "pool": True}, max_paths=120000 if not q else 6000, batch=10))
+    hs.append(Harness("controls.representation", h_controls_representation, max_paths=200))
     for il, n0, lm, b in ([(0, 1, 0, 2)] if q else [(0, 1, 0, 2), (1, 1, 1, 2), (0, 2, 1, 2)]):
         hs.append(Harness(f"adaptive.controls.L{il}.N{n0}.M{lm}.B{b}", h_adaptive_cv, {"il": il, "n0": n0, "lm": lm, "bound": b}, max_paths=6000, batch=10))
     for il, n0, lm in ([(0, 2, 1), (1, 1, 2), (2, 2, 1), (0, 1, 2), (1, 2, 4)] if q else [(0, 2, 1), (1, 1, 2), (2, 2, 1), (0, 1, 2), (1, 2, 4), (0, 3, 3), (2, 1, 0), (3, 2, 2), (0, 2, 5)]):
